@@ -211,6 +211,16 @@ func memoFieldStores(val ssa.Value) map[string]ssa.Value {
 	}
 	st := derefStruct(al.Type())
 	for _, r := range *al.Referrers() {
+		// the local was initialised from a composite literal built in a temporary
+		if s, ok := r.(*ssa.Store); ok && s.Addr == ssa.Value(al) {
+			for k, fv := range memoFieldStores(s.Val) {
+				if _, has := out[k]; !has {
+					out[k] = fv
+				}
+			}
+		}
+	}
+	for _, r := range *al.Referrers() {
 		if fa, ok := r.(*ssa.FieldAddr); ok {
 			for _, rr := range *fa.Referrers() {
 				if s, ok := rr.(*ssa.Store); ok && st != nil {
@@ -1354,6 +1364,18 @@ func rtExecute(a *aggregator, v *rtView) {
 		}
 	}
 	if len(loops) != 1 {
+		hasFor := false
+		for _, st := range fd.Body.List {
+			if _, ok := st.(*ast.ForStmt); ok {
+				hasFor = true
+			}
+		}
+		if len(loops) == 0 && hasFor {
+			// written as an index loop: this shape rule does not apply; what Execute does
+			// with a token list is decided by R-execute-semantics on a recording instantiation
+			a.OK("R-execute", "Execute replays the token list once, in order", cfg, v.in.srcPos(fd.Pos()), "Execute is not written as a range loop: the shape rule does not apply (decided by R-execute-semantics)")
+			return
+		}
 		a.Bad("R-execute", "Execute replays the token list once, in order", cfg, v.in.srcPos(fd.Pos()), fmt.Sprintf("%d top-level range loops (expected one ascending pass over p.Tokens())", len(loops)))
 		return
 	}
